@@ -768,6 +768,36 @@ theorem C20_links_open (p : Policy) (hp : Plain p.ensureInit) (hs : LinkOpen p.e
     p.sanitizeCore (p.sanitizeCore input) = p.sanitizeCore input :=
   C20_fix_out p hp (UrlStableTag p.ensureInit) input (fun t _ => attrFixG_of_open _ hs t) hstab
 
+
+/-- policies with link options whose rules let neither `rel` nor `target` through on link elements and attach no
+    value pattern to the URL attributes (no styles, forced crossorigin or sandbox, no rewriter) — `LinkSimple`
+    without its whole-policy proviso on URL normalisation -/
+structure LinkClosed (p : Policy) : Prop where
+  base : ∀ el, LinkBaseAt p el
+  blind : ∀ el aps, p.attrRulesFor el = some aps → ∀ k, urlKeyFor el = some k → ∀ v v',
+    (p.filterAttr el aps false ⟨k, v⟩).isSome = (p.filterAttr el aps false ⟨k, v'⟩).isSome
+
+theorem attrFixG_of_closed (p : Policy) (hs : LinkClosed p) (t : Token) : AttrFixG p (UrlStableTag p) t := by
+  intro aps attrs _ haps h hG
+  unfold Policy.cleanAttrs at h ⊢
+  split at h
+  · simp at h; subst h; simp_all
+  · simp only
+    split
+    · rename_i he
+      have : attrs = [] := List.isEmpty_iff.mp he
+      subst this; rfl
+    · exact link_idemAt p t.data (hs.base t.data) t.attrs attrs aps haps h
+        (fun k hk => .inl (hs.blind t.data aps haps k hk)) hG
+
+/-- **C20, policies that check URLs, with or without link options, whose rules let neither rel nor target
+    through**: sanitising twice is sanitising once whenever URL normalisation is stable on the output.  (The
+    output-level form of `C20_urls` and `C20_links`, whose proviso is a hypothesis on the policy.) -/
+theorem C20_links_out (p : Policy) (hp : Plain p.ensureInit) (hs : LinkClosed p.ensureInit) (input : Bytes)
+    (hstab : ∀ k ∈ tokenize (p.sanitizeCore input), isOpen k → UrlStableTag p.ensureInit k) :
+    p.sanitizeCore (p.sanitizeCore input) = p.sanitizeCore input :=
+  C20_fix_out p hp (UrlStableTag p.ensureInit) input (fun t _ => attrFixG_of_closed _ hs t) hstab
+
 /-- such a policy at work (a test, not the unbounded claim): rel and target are allowed on `a`, the options add
     to them in place, and the second pass changes nothing -/
 example :
